@@ -22,6 +22,9 @@ FIRST_MISSED = {"C09-A": "no obligation with an explicit random_state + resample
     "C20-3B": "magnitudes (underflow/overflow of squared weights) were outside the exact-real claim; round-off model added",
     "C18-3B": "running with a pool object and periodic checkpoints is not claimed by C18; reported by C08 (save-configurations)",
     "C19-3B": "the change is in ModeStatistics.from_particles, not in the fit; reported by C14 (mode-fit-draws)",
+    "C20-B": "d=2 affine invariance with symbolic samples is beyond nlsat; concrete samples + symbolic ill-conditioned map added (round 3)",
+    "C20-2B": "same",
+    "C18-A": "running with pool>=2 and checkpoints is not claimed by C18; reported by C08 (save-configurations)",
     "C10-2B": "temperatures were on a rational grid; arbitrary real temperatures added (uninterpreted exp(beta*l), Ackermann congruence)",
     "C19-A": "budget exhausted; replay compared at scale 0.1 only (and with numpy's absolute tolerance)", "C19-B": "configured fallback equalled the class default in the harness"}
 rows = []
